@@ -1343,9 +1343,22 @@ func randomKey(n int) string {
 	return fmt.Sprintf("%x", b)
 }
 
+// reset drops the whole dataset (collections, hooks and channels) before the
+// aof is loaded again.
 func (s *Server) reset() {
 	s.aofsz = 0
 	s.cols.Clear()
+	s.hooks.Ascend(nil, func(item any) bool {
+		item.(*Hook).Close()
+		return true
+	})
+	s.hooks.Clear()
+	s.hooksOut.Clear()
+	s.hookTree.Clear()
+	s.hookCross.Clear()
+	s.hookExpires.Clear()
+	s.groupHooks.Clear()
+	s.groupObjects.Clear()
 }
 
 func (s *Server) command(msg *Message, client *Client) (
